@@ -833,3 +833,57 @@ def _pkg_rename_private_params(srcs):
 
 
 VARIANTS.append(dict(id='PKG_S_rename_private_parameters', props=ALL + ['C05'], file='*', expect=[], kind='silent', where='', pkg_all_fn=_pkg_rename_private_params))
+
+
+def ifexp_to_if(tree):
+    """x = A if c else B  ->  if c: x = A else: x = B ; return A if c else B -> if c: return A else: return B"""
+    import copy
+    n = 0
+
+    class T(ast.NodeTransformer):
+        def generic_visit(self, node):
+            nonlocal n
+            super().generic_visit(node)
+            for fld in ('body', 'orelse', 'finalbody'):
+                stmts = getattr(node, fld, None)
+                if isinstance(stmts, list) and stmts and isinstance(stmts[0], ast.stmt):
+                    out = []
+                    for s in stmts:
+                        if isinstance(s, (ast.Return, ast.Assign)) and isinstance(getattr(s, 'value', None), ast.IfExp) and \
+                                not (isinstance(s, ast.Assign) and any(not isinstance(t, ast.Name) for t in s.targets)):
+                            a, b = copy.copy(s), copy.copy(s)
+                            a.value, b.value = s.value.body, s.value.orelse
+                            out.append(ast.If(test=s.value.test, body=[a], orelse=[b]))
+                            n += 1
+                        else:
+                            out.append(s)
+                    setattr(node, fld, out)
+            return node
+    t = T().visit(tree)
+    ast.fix_missing_locations(t)
+    return t, n
+
+
+def swap_ifexp(tree):
+    n = 0
+
+    class T(ast.NodeTransformer):
+        def visit_IfExp(self, node):
+            nonlocal n
+            self.generic_visit(node)
+            n += 1
+            return ast.IfExp(test=ast.UnaryOp(op=ast.Not(), operand=node.test), body=node.orelse, orelse=node.body)
+    t = T().visit(tree)
+    ast.fix_missing_locations(t)
+    return t, n
+
+
+def _pkg_transform2(fn):
+    def run(filename, src):
+        tree, n = fn(ast.parse(src))
+        return ast.unparse(tree) + '\n' if n else None
+    return run
+
+
+S('PKG_S_conditional_expressions_as_statements', ALL + ['C05'], '*', pkg_fn=_pkg_transform2(ifexp_to_if))
+S('PKG_S_conditional_expressions_negated', ALL + ['C05'], '*', pkg_fn=_pkg_transform2(swap_ifexp))
